@@ -205,13 +205,15 @@ pub fn check(tier: Tier, threads: usize) -> CheckOutcome {
         bytes: Vec<u8>,
         frames: Vec<usize>,
         follower: usize,
+        /// the stream starts with the answered requests set(f) + get(k) and has no follower
+        prefixed: bool,
     }
     let mut jobs: Vec<Job> = vec![];
     for (i, f) in frames.iter().enumerate() {
         for (j, g) in followers.iter().enumerate() {
             let mut b = f.bytes();
             b.extend(g.bytes());
-            jobs.push(Job { name: format!("{}+{}", f.name, g.name), bytes: b, frames: vec![i], follower: j });
+            jobs.push(Job { name: format!("{}+{}", f.name, g.name), bytes: b, frames: vec![i], follower: j, prefixed: false });
         }
     }
     let dec_results = par_map(&jobs, threads, |_, job| {
@@ -260,8 +262,19 @@ pub fn check(tier: Tier, threads: usize) -> CheckOutcome {
         for (j, g) in followers.iter().enumerate() {
             let mut b = f.bytes();
             b.extend(g.bytes());
-            sjobs.push(Job { name: format!("{}+{}", f.name, g.name), bytes: b, frames: vec![i], follower: j });
+            sjobs.push(Job { name: format!("{}+{}", f.name, g.name), bytes: b, frames: vec![i], follower: j, prefixed: false });
         }
+    }
+    // answered requests in front of every frame the decoder rejects or the connection skips: what
+    // was answered before the bad frame must reach the client wherever the stream is cut
+    for (i, f) in frames.iter().enumerate() {
+        if f.well_formed {
+            continue;
+        }
+        let mut b = followers[1].bytes();
+        b.extend(followers[2].bytes());
+        b.extend(f.bytes());
+        sjobs.push(Job { name: format!("set+get+{}", f.name), bytes: b, frames: vec![i], follower: 0, prefixed: true });
     }
     if tier == Tier::Thorough {
         // all ordered pairs of corpus frames
@@ -270,7 +283,7 @@ pub fn check(tier: Tier, threads: usize) -> CheckOutcome {
                 let mut b = f.bytes();
                 b.extend(g.bytes());
                 b.extend(followers[0].bytes());
-                sjobs.push(Job { name: format!("{}+{}+noop", f.name, g.name), bytes: b, frames: vec![i, j], follower: 0 });
+                sjobs.push(Job { name: format!("{}+{}+noop", f.name, g.name), bytes: b, frames: vec![i, j], follower: 0, prefixed: false });
             }
         }
     }
@@ -294,7 +307,11 @@ pub fn check(tier: Tier, threads: usize) -> CheckOutcome {
             // an oversized frame: pairs (and triples) of cuts inside its body, where the discard loop runs
             let l = job.bytes.len();
             let first = frames[job.frames[0]].bytes().len().min(l);
+            let p0 = if job.prefixed { l - first } else { 0 };
             let mut offs: Vec<usize> = vec![24, 25, 24 + 100, first / 4, first / 2, first / 2 + 1, 3 * first / 4, first - 1, first, first + 1, first + 24];
+            for o in offs.iter_mut() {
+                *o += p0;
+            }
             offs.retain(|o| *o > 0 && *o < l);
             offs.sort();
             offs.dedup();
@@ -349,7 +366,12 @@ pub fn check(tier: Tier, threads: usize) -> CheckOutcome {
                 }
                 // agreement with the frame-wise expectation (each request taken from its own bytes)
                 let mut fs: Vec<&Frame> = job.frames.iter().map(|i| &frames[*i]).collect();
-                fs.push(&followers[job.follower]);
+                if job.prefixed {
+                    fs.insert(0, &followers[2]);
+                    fs.insert(0, &followers[1]);
+                } else {
+                    fs.push(&followers[job.follower]);
+                }
                 let oversized = fs.iter().any(|f| f.req.body_length() > LIMIT);
                 let (exp_out, exp_closed, exp_dump) = framewise_expected(&fs);
                 let matches = base.received == exp_out && base.dump == exp_dump;
